@@ -59,10 +59,21 @@ func newExecutionPlan(keys []types.String, filter types.Value) *executionPlan {
 			plan.intersect(newExecutionPlan(keys, child))
 		}
 	}
-	if v, ok := f.Get(types.NewString("$or")).(types.Slice); ok {
-		for _, child := range v.Range() {
-			plan.union(newExecutionPlan(keys, child))
+	if v, ok := f.Get(types.NewString("$or")).(types.Slice); ok && v.Len() > 0 {
+		var or *executionPlan
+		for i, child := range v.Range() {
+			p := newExecutionPlan(keys, child)
+			if p == nil {
+				or = nil
+				break
+			}
+			if i == 0 {
+				or = p
+			} else {
+				or.union(p)
+			}
 		}
+		plan.intersect(or)
 	}
 
 	if plan.min == nil && plan.max == nil {
@@ -96,10 +107,10 @@ func (e *executionPlan) union(other *executionPlan) {
 		return
 	}
 
-	if other.min != nil && types.Compare(other.min, e.min) < 0 {
+	if e.min != nil && (other.min == nil || types.Compare(other.min, e.min) < 0) {
 		e.min = other.min
 	}
-	if other.max != nil && types.Compare(other.max, e.max) > 0 {
+	if e.max != nil && (other.max == nil || types.Compare(other.max, e.max) > 0) {
 		e.max = other.max
 	}
 }
